@@ -76,9 +76,19 @@ func init() {
 }
 
 func drawFECase(rt *rapid.T) *feCase {
-	ws, meta := gen.DrawWorkspace(rt, gen.WSOpts{MaxPkgs: 3, Tests: true, Kernels: e2eKernels()})
+	ws, meta := gen.DrawWorkspace(rt, gen.WSOpts{MaxPkgs: 3, Tests: true, Kernels: e2eKernels(), Shared: true})
 	fc := &feCase{WS: ws, Meta: meta}
 	fc.Cfg = runCfg{Sel: drawSelection(rt), CheckTests: true, CheckGenerated: true}
+	if fc.Cfg.Sel.HasEnable && len(ws.Files) > 0 && ws.Files[0].Path == "shared/shared.go" {
+		// the checkers the shared-package kernels are written for
+		seen := map[string]bool{}
+		for _, k := range gen.SharedUseKernels {
+			if !seen[k.Checker] {
+				seen[k.Checker] = true
+				fc.Cfg.Sel.Enable = append(fc.Cfg.Sel.Enable, k.Checker)
+			}
+		}
+	}
 	// configurations expressible in both dialects give both lists explicitly
 	if !fc.Cfg.Sel.EnableAll && !fc.Cfg.Sel.HasEnable {
 		fc.Cfg.Sel = selection{HasEnable: true, Enable: []string{"#diagnostic", "#style", "#performance"}, HasDis: true, Disable: []string{"#experimental", "#opinionated", "#performance"}}
